@@ -298,6 +298,17 @@ func c27AdmissionAndImmunize(c *core.Ctx) {
 			"an error (the item is refused) is returned only as the outcome of evictItemsNoLock",
 			"the chunk can refuse an item without having walked the eviction list ("+c.P.PathString(path)+"): a full chunk holding evictable items stops admitting new ones")
 	}
+	if fn := anchorM(c, "storage/immunitycache", "immunityChunk", "evictItemsNoLock"); fn != nil {
+		c.Analysed(fname(fn))
+		isWalk := func(in ssa.Instruction) bool {
+			cc := core.CallOf(in)
+			return cc != nil && cc.StaticCallee() != nil && cc.StaticCallee().Name() == "removeOldestNoLock"
+		}
+		esc, path := core.PathQ{Fn: fn, Via: isWalk, Target: core.AnyReturn}.Escape()
+		c.Check(esc == nil, "C27/refusal-only-after-eviction-walk", "immunityChunk.evictItemsNoLock", fn.Pos(),
+			"every return of the eviction step follows a walk of the list (removeOldestNoLock)",
+			"the eviction step can return (and the item be refused) without walking the list ("+c.P.PathString(path)+"): a shortcut based on counters (e.g. the number of immune keys, which includes keys whose items have not arrived) refuses items although evictable ones are held")
+	}
 	if fn := anchorM(c, "dataRetriever/shardedData", "shardedData", "ImmunizeSetOfDataAgainstEviction"); fn != nil {
 		c.Analysed(fname(fn))
 		var imm []ssa.Instruction
